@@ -149,14 +149,14 @@ Section Machine.
     end.
 
   (* observable behaviour of a history: what each construction returned *)
-  Fixpoint run (fs : fsys) (h : list (N * op)) : list (pres ptable) :=
+  Fixpoint run_hist (fs : fsys) (h : list (N * op)) : list (pres ptable) :=
     match h with
     | [] => []
     | (now, o) :: r =>
         let s := step fs now o in
         match snd s with
-        | Some br => snd br :: run (fst s) r
-        | None => run (fst s) r
+        | Some br => snd br :: run_hist (fst s) r
+        | None => run_hist (fst s) r
         end
     end.
 
@@ -174,14 +174,14 @@ Section Machine.
     | _ => (fs, None)
     end.
 
-  Fixpoint spec_run (fs : fsys) (h : list (N * op)) : list (pres ptable) :=
+  Fixpoint spec_hist (fs : fsys) (h : list (N * op)) : list (pres ptable) :=
     match h with
     | [] => []
     | (now, o) :: r =>
         let s := spec_step fs now o in
         match snd s with
-        | Some x => x :: spec_run (fst s) r
-        | None => spec_run (fst s) r
+        | Some x => x :: spec_hist (fst s) r
+        | None => spec_hist (fst s) r
         end
     end.
 
